@@ -53,6 +53,8 @@ def run_both(h, key, fn, observe):
         return
     finally:
         h.interp.unordered_hook = None
+    # a path on which no site was permuted repeats the reference run
+    h.trivial = ch.permuted is None
     same = got == ref
     info = None
     if not same:
